@@ -27,8 +27,7 @@ impl PdiOffset {
 @*/
 /*@fn file=src/pdi.rs impl="impl PdiOffset" name=increment_byte_aligned props=C08
     requires
-        bits <= 0xfff8,                                        // (bits + 7) does not overflow u16: a sync manager is at most 8191 bytes
-        self.start_address + (bits + 7) / 8 <= u32::MAX,
+        self.start_address + (bits + 7) / 8 <= u32::MAX,       // (any 16-bit bit length: no bound on `bits`)
     ensures r.start_address == self.start_address + (bits as int + 7) / 8      // ceil(bits / 8) bytes
 @*/
 /*@fn file=src/pdi.rs impl="impl PdiOffset" name=up_to props=C08
@@ -193,7 +192,6 @@ impl<'a> SubDeviceRef<'a> {
 /*@fn file=src/subdevice/configuration.rs impl="impl<S> SubDeviceRef<'_, S>" name=write_fmmu_config props=C08
     requires
         fmmu_index < 16,
-        sm_bit_len <= 0xfff8,
         old(global_offset).start_address + (sm_bit_len + 7) / 8 <= u32::MAX,
     ensures
         r is Ok ==> final(global_offset).start_address == old(global_offset).start_address + (sm_bit_len as int + 7) / 8,
